@@ -4,7 +4,7 @@ import itertools, json, os, random, re
 import vlib
 from vlib import Result, log
 
-THEOREMS = ["C13_enum_key_sound", "C13_union_key_sound", "C13_old_enum_key_refuted", "C13_old_union_key_refuted", "C13_nonvacuous"]
+THEOREMS = ["C13_enum_key_sound", "C13_union_key_sound", "C13_canonical_sound", "C13_old_enum_key_refuted", "C13_old_union_key_refuted", "C13_nonvacuous", "C13_canonical_nonvacuous"]
 TARGETS = ["Props/C13.v"]
 
 
@@ -52,6 +52,20 @@ def families():
         {"type": "object", "properties": {"x": {"type": "string"}, "y": {"type": "integer"}}, "additionalProperties": False},
         {"type": "object", "properties": {"x": {"type": "string", "default": "d"}, "y": {"type": "integer"}}},
         {"type": "object", "properties": {"x": {"type": "string", "maxLength": 3}, "y": {"type": "integer"}}},
+    ]
+    # members whose NAMES are annotation keywords of JSON Schema (they are properties here, not annotations)
+    fam["kwprops"] = [
+        {"type": "object", "properties": {"name": {"type": "string"}}, "additionalProperties": False},
+        {"type": "object", "properties": {"name": {"type": "string"}, "title": {"type": "string"}}, "additionalProperties": False},
+        {"type": "object", "properties": {"name": {"type": "string"}, "description": {"type": "string"}}, "additionalProperties": False},
+        {"type": "object", "properties": {"name": {"type": "string"}, "example": {"type": "integer"}}, "additionalProperties": False},
+        {"type": "object", "properties": {"name": {"type": "string"}, "default": {"type": "boolean"}, "enum": {"type": "string"}}, "additionalProperties": False},
+        {"type": "object", "title": "Labelled", "description": "only the annotations differ", "properties": {"name": {"type": "string"}}, "additionalProperties": False},
+    ]
+    # primitives and their array / nullable wrappers (response sets that differ only by a wrapper)
+    fam["prim"] = [
+        {"type": "string"}, {"type": "array", "items": {"type": "string"}}, {"type": "integer"}, {"type": "array", "items": {"type": "integer"}},
+        {"type": ["string", "null"]}, {"type": "array", "items": {"type": "array", "items": {"type": "string"}}},
     ]
     fam["union"] = [
         {"oneOf": [ref("Ua"), ref("Ub")]},
@@ -280,7 +294,7 @@ def wire_names(text_closure):
 def main(tier, seed, replay=None):
     res = Result("C13", tier, seed)
     vlib.build_repo()
-    coq_ok, out = vlib.standard_coq_obligations(res, TARGETS, THEOREMS, expect_closed=4)
+    coq_ok, out = vlib.standard_coq_obligations(res, TARGETS, THEOREMS, expect_closed=5)
     rng = random.Random(seed * 131 + 13)
     fam = families()
     cases = []
@@ -288,9 +302,11 @@ def main(tier, seed, replay=None):
         pairs = [(i, j) for i in range(len(members)) for j in range(len(members)) if i != j]
         for (i, j) in pairs:
             for sa, sb in itertools.product(SITES, SITES):
-                if sa in ("query",) and fname in ("object", "union"):
+                if sa in ("query",) and fname in ("object", "union", "kwprops"):
                     continue
-                if sb in ("query",) and fname in ("object", "union"):
+                if sb in ("query",) and fname in ("object", "union", "kwprops"):
+                    continue
+                if fname == "prim" and not ({sa, sb} <= {"respbody", "reqbody", "prop", "item"}):
                     continue
                 cases.append({"family": fname, "i": i, "j": j, "sa": sa, "sb": sb})
     n_all = len(cases)
@@ -360,9 +376,9 @@ def main(tier, seed, replay=None):
     for c in cases[:4]:
         res.sample(c)
     res.cov["trusted_base"] = vlib.COMMON_TRUSTED + [
-        "coq/Model/Sharing.v: hand model of the enum key (EnumValueEntry::cache_key / entries_to_cache_key) and the union key (union_type / build_union_fingerprints / UnionRegistry)",
+        "coq/Model/Canon.v: hand model of CanonicalSchema::from_schema (normalize_schema_semantics + RFC 8785 member ordering)", "coq/Model/Sharing.v: hand model of the enum key (EnumValueEntry::cache_key / entries_to_cache_key) and the union key (union_type / build_union_fingerprints / UnionRegistry)",
         "lib/c13.py split_items / closure_text: item splitting of prettyplease output and name-placeholder normalisation"]
-    res.assumptions = ["PARTIAL: soundness of the two identity keys is proved on the model; that no other mechanism (canonical-schema identity, response-enum signatures, merge by type name) merges wire-different schemas is covered by the differential matrix only",
+    res.assumptions = ["PARTIAL: soundness of the two identity keys is proved on the model; canonical-schema identity is proved to identify only reorderings; that response-enum signatures and merge by type name do not merge wire-different types is covered by the differential matrix only",
                        "the oracle compares emitted definitions, not run-time behaviour: a textual difference that is wire-neutral would be reported as a difference (none occurs on the unchanged tree)"]
     kf = {k["key"]: k["text"] for k in vlib.known_findings("C13")}
     seen_known, real = set(), []
